@@ -437,7 +437,7 @@ func dryBranch(w *world.World, rec *world.ScanRecord, gr *world.GroupRec) string
 
 func TestC11(t *testing.T) {
 	p := &world.Profile{Name: "dry", MinGroups: 1, MaxGroups: 3, Dry: 2, Fleet: 1, Auto: 1, MaxInit: 8, SmallGraces: true, Steps: 30,
-		Weights: with(baseWeights(), "targetUtil", 12, "taintExt", 5, "advance", 8, "clearNode", 2, "cordon", 1)}
+		Weights: with(baseWeights(), "targetUtil", 12, "taintExt", 5, "advance", 8, "clearNode", 2, "cordon", 1, "asgEdit", 3, "drainAndForce", 1)}
 	col := newCollector(t, "C11", "history check; group 0 is always dry (group option or global flag); non-trivial = a scan in which the dry group took a branch that writes when not dry (recover, scale-up with/without tracked nodes, from zero, scale-down taint, reap of really-expired tainted nodes, force removal); distinct by (branch, via-global, fleet, real expired taints present)")
 	historyCheck(t, &historyOpts{prop: "C11", profile: p, col: col, classify: func(w *world.World, rec *world.ScanRecord) []string {
 		var keys []string
